@@ -117,7 +117,35 @@ def make_iwc(w):
                                depth_layer=list(w.get("depth_layer", [1])), value=list(w.get("value", ["FC"])))
 
 
+def _typed_flags(cfg):
+    """cfg["flagtypes"]: hand some boolean options over as numpy.bool_ / 0 / 1 instead of Python bools (deterministically from the
+    configuration).  Only in the ways the package gives the same meaning as the bool: field-management flags (compared with ==),
+    a TRUE off_season flag (a falsy non-bool off_season is treated as true by the package: observation in DESIGN.md 15.3b)."""
+    import json as _json
+    rng = rng_for("flagtypes", _json.dumps({k: v for k, v in cfg.items() if k != "flagtypes"}, sort_keys=True, default=str))
+    out = {}
+    for key in ("field", "fallow_field"):
+        f = cfg.get(key)
+        if f is not None:
+            f = dict(f)
+            for k in ("bunds", "mulches", "curve_number_adj", "sr_inhb"):
+                if k in f:
+                    f[k] = flagtype(rng, f[k])
+        out[key] = f
+    off = bool(cfg.get("off_season", False))
+    out["off_season"] = rng.choice([True, np.bool_(True), 1]) if off else False
+    return out
+
+
 def build_objects(cfg):
+    if cfg.get("flagtypes"):
+        t = _typed_flags(cfg)
+        return dict(
+            sim_start_time=cfg["start"], sim_end_time=cfg["end"], weather_df=make_weather(cfg["weather"]),
+            soil=make_soil(cfg["soil"]), crop=make_crop(cfg["crop"]), initial_water_content=make_iwc(cfg.get("iwc")),
+            irrigation_management=make_irr(cfg.get("irr")), field_management=make_field(t["field"]),
+            fallow_field_management=make_field(t["fallow_field"]), groundwater=make_gw(cfg.get("gw")),
+            co2_concentration=make_co2(cfg.get("co2")), off_season=t["off_season"])
     return dict(
         sim_start_time=cfg["start"], sim_end_time=cfg["end"], weather_df=make_weather(cfg["weather"]),
         soil=make_soil(cfg["soil"]), crop=make_crop(cfg["crop"]), initial_water_content=make_iwc(cfg.get("iwc")),
